@@ -254,14 +254,17 @@ class OpsMixin:
         return None
 
     # comprehensions ------------------------------------------------------
-    def comp(self, gens, frame, emit):
+    def comp(self, gens, frame, emit, first_items=None):
         def rec(i, fr):
             if i == len(gens):
                 emit(fr)
                 return True
             g = gens[i]
-            it = self.eval(g.iter, frame if i == 0 else fr)     # the outermost iterable belongs to the enclosing scope
-            items = self.iterate(it, g.iter, fr)
+            if i == 0 and first_items is not None:
+                items = first_items
+            else:
+                it = self.eval(g.iter, frame if i == 0 else fr)     # the outermost iterable belongs to the enclosing scope
+                items = self.iterate(it, g.iter, fr)
             if items is None:
                 return False
             if isinstance(items, TruncList):
@@ -311,12 +314,25 @@ class OpsMixin:
         return self.dyn_comp(e, frame, lambda fr: self.eval(e.elt, fr))
 
     def ex_GeneratorExp(self, e, frame):
-        v = self.ex_ListComp(e, frame)
-        if isinstance(v, list):
-            g = GenVal(v)
-            g.truncated = getattr(self, "_comp_endless", False)
-            return g
-        return v
+        first = self.eval(e.generators[0].iter, frame)
+        items0 = self.iterate(first, e.generators[0].iter, frame)
+        if items0 is None or self.loading and not self.exploring and False:
+            # over a dynamic iterable: the summarised form (as a list comprehension would give)
+            v = self.ex_ListComp(e, frame)
+            if isinstance(v, list):
+                return GenVal(v)
+            return v
+        items0 = TruncList(items0) if isinstance(items0, TruncList) else list(items0)
+
+        def force():
+            out = []
+            ok, _ = self.comp(e.generators, frame, lambda fr: out.append(self.eval(e.elt, fr)), first_items=items0)
+            if not ok:
+                raise AnalysisError("unsupported-syntax", "generator expression over a dynamic inner iterable at %s" % frame.where(e))
+            return out
+        g = GenVal(thunk=force)
+        g.truncated = isinstance(items0, TruncList)
+        return g
 
     def ex_SetComp(self, e, frame):
         v = self.ex_ListComp(e, frame)
@@ -424,6 +440,8 @@ class OpsMixin:
                 and isinstance(args[0], str):
             top = args[0].split(".")[0]
             absent = top in getattr(self, "missing_modules", ())
+            if fn.name.endswith("import_module") and not absent and self.module_path(args[0]) is not None and len(args) == 1:
+                return self.load_module(args[0])            # a module of the library itself: the module, not a stand-in
             if fn.name.endswith("find_spec"):
                 return None if absent else External("spec:" + args[0])
             if absent:
@@ -899,6 +917,12 @@ class OpsMixin:
                     return item in container
                 except TypeError:
                     pass
+            if isinstance(item, (Sym, External)):
+                # a dispatch table asked whether it has the key: the same equality decisions (and path facts) as the lookup
+                # that follows, so that the two agree
+                hit = self.small_table_lookup(container, item, node, frame) if container and all(isinstance(k, int) for k in container) else None
+                if hit is not None:
+                    return hit[0]
             return self.decide(self.describe_cond(node), node, frame)
         if isinstance(container, EnumVal):
             return self.decide(self.describe_cond(node), node, frame)
